@@ -126,7 +126,7 @@ def ensure_pkg():
     return verifpkg_c19
 
 
-ident = st.sampled_from(["a", "b", "c", "x", "key", "k_1", "interval", "target", "nested", "a", "b", "cpu%", "fmt %s", "50%%", "a.b", "x y", "[0]", "ünï"])
+ident = st.sampled_from(["a", "b", "c", "x", "key", "k_1", "interval", "target", "nested", "a", "b", "cpu%", "fmt %s", "50%%", "a.b", "x y", "[0]", "ünï", "__weight", "__meta__", "_private", "__"])
 scalar = st.one_of(st.none(), st.booleans(), st.integers(-5, 100), st.floats(-10, 10, allow_nan=False), st.sampled_from(["", "s", "text", "__type__", "a.b"]))
 
 
